@@ -494,6 +494,16 @@ func (r *resolver) applyDeviation(y *Module, d *Deviation) error {
 			}
 			hasListDets.setMinElements(*(d.Replace).minElementsPtr)
 		}
+		if d.Replace.dtype != nil {
+			if hasType == nil {
+				return fmt.Errorf("%s - only a leaf or leaf-list has a type to replace", d.Ident())
+			}
+			if _, isAny := target.(*Any); isAny {
+				return fmt.Errorf("%s - anydata and anyxml have no type to replace", d.Ident())
+			}
+			// compiled later like the type it replaces
+			hasType.setType(d.Replace.dtype)
+		}
 		if d.Replace.units != "" {
 			if hasType.Units() == "" {
 				return fmt.Errorf("units not set on %s", d.Ident())
